@@ -67,6 +67,16 @@ Theorem C03_tx_selfburned : forall s legs s',
   forall q, p_selfburned (pairs s' q) = p_selfburned (pairs s q).
 Proof. exact exec_tx_selfburned. Qed.
 
+(* a coin that is merely NAMED like a pair's contract address (40 hex digits: GetTokenPairID
+   resolves such a string through the ERC-20 address index) is not the pair's coin: the
+   conversion is refused in every state and nothing changes - in particular no token of the
+   pair is minted or released for it.  Histories may contain such messages anywhere
+   ([origin_ok_op] puts no condition on them) *)
+Theorem C03_foreign_coin_refused : forall s p sender receiver amt,
+  exec s (OnPair p (ConvertForeignCoin sender receiver amt)) = None /\
+  deliver s (OnPair p (ConvertForeignCoin sender receiver amt)) = s.
+Proof. exact foreign_coin_refused. Qed.
+
 (* every delivered operation (failed ones leave the state unchanged) preserves the invariant
    of every pair *)
 Theorem C03_backing_step : forall s o,
@@ -155,6 +165,7 @@ Print Assumptions C03_hook_iteration.
 Print Assumptions C03_hook_loop.
 Print Assumptions C03_backing_tx.
 Print Assumptions C03_tx_selfburned.
+Print Assumptions C03_foreign_coin_refused.
 Print Assumptions C03_backing_step.
 Print Assumptions C03_backing_history.
 Print Assumptions C03_backed_after_history.
